@@ -591,6 +591,16 @@ class StmtMixin(object):
     head_heap = dict(st.heap)
     modkeys = self.keys_of_patterns(mods)
     for e in ls.get('invariant', ()):
+      t = self.parse_spec(e)
+      if (isinstance(t, ast.Call) and isinstance(t.func, ast.Name) and t.func.id == 'beq' and isinstance(t.args[0], ast.Name)
+          and t.args[0].id in frame and isinstance(frame[t.args[0].id], V) and frame[t.args[0].id].ty.k == 'bytes' and t.args[0].id in names):
+        # a byte-string local is defined by its invariant (opaque bytes cannot be constrained by equality)
+        self.spec_depth += 1
+        try:
+          frame[t.args[0].id] = self.ev1(t.args[1], st, cx)
+        finally:
+          self.spec_depth -= 1
+        continue
       st.assume(self.spec_bool(st, cx, e))
     st.path.append('loop%d@%d' % (ordn, line))
     # condition
@@ -737,6 +747,23 @@ class StmtMixin(object):
     iterations, each over an arbitrary entry of the dictionary; CPython raises RuntimeError if
     the dictionary changes size while iterated (obligation at the end of every iteration)."""
     from .state import VBound
+    if isinstance(seq, V) and seq.ty.k == 'any' and not enum:
+      # an opaque sequence: any number of iterations over opaque elements
+      frame_id = cx.chain[0]
+      more = '$more%d' % ordn
+      st.frames[frame_id][more] = V(BOOL, z3.Bool(fresh_name('more')))
+      ls2 = dict(ls)
+      ls2['havoc_locals'] = list(ls.get('havoc_locals', ())) + [more]
+      def test(s):
+        return s.frames[frame_id][more].t
+      def step(s):
+        s.frames[frame_id][more] = V(BOOL, z3.Bool(fresh_name('more')))
+      def pre(s):
+        for o in self.assign_to(node.target, self.fresh_val(s, ANY, 'elem'), s, cx):
+          yield o
+      for o in self.run_loop(node, st, cx, ordn, ls2, test, node.body, step, pre):
+        yield o
+      return
     if not (isinstance(seq, VBound) and seq.kind == 'dictview') or enum:
       raise Unsupported('for-loop over %r (line %d)' % (seq, node.lineno))
     d = seq.recv
